@@ -18,6 +18,7 @@ pub enum PanicOr<R> { Panic, Ret(R) }
 //         (stride 1: &[T];  stride N, len 1: &GenericArray<T,N> or &[T;N];  stride N, len k: &[GenericArray<T,N>])
 //   Ptr = a raw pointer with the provenance [lo, hi) it was derived from
 pub struct Sl { pub base: int, pub off: usize, pub len: usize, pub stride: usize }
+#[derive(Clone, Copy)]
 pub struct Ptr { pub base: int, pub off: usize, pub stride: usize, pub lo: usize, pub hi: usize }
 
 impl Sl {
@@ -311,6 +312,48 @@ pub fn union_reinterpret(a: Bits, size_b: usize) -> (b: Bits)
         }
         PanicOr::Ret(union_reinterpret(a, size_b))
     }
+
+    // extracted from src/sequence.rs:330  `fn split(self) -> (Self::First, Self::Second)`
+    pub fn split_ref<N: ArrayLength, K: ArrayLength>(self_: Sl) -> (ret: (Sl, Sl))
+        requires
+            self_.stride == N::n(),
+            self_.len == 1,
+            self_.valid(),
+            K::n() <= N::n(),
+        ensures
+            ret.0.base == self_.base && ret.0.off == self_.off && ret.0.len == 1 && ret.0.stride == K::n(), /*OB:split_ref.post.first-half-at-the-start:C09*/
+            ret.1.base == self_.base && ret.1.off == self_.off + K::n() && ret.1.len == 1 && ret.1.stride == N::n() - K::n(), /*OB:split_ref.post.second-half-adjacent:C09*/
+            ret.0.end() == ret.1.start() && ret.1.end() == self_.end(), /*OB:split_ref.post.cover-exactly:C09*/
+    {
+        {
+            let ptr_to_first = self_.as_ptr().cast(1);
+            let head = deref(ptr_to_first.cast(K::usize_()));
+            let tail = deref(ptr_to_first.add(K::usize_()).cast(N::usize_() - K::usize_()));
+            (head, tail)
+        }
+    }
+    proof fn reach_split_ref<N: ArrayLength, K: ArrayLength>(self_: Sl) requires self_.stride == N::n(), self_.len == 1, self_.valid(), K::n() <= N::n(), { assert(false); } /*OB:canary.split_ref:*/
+
+    // extracted from src/sequence.rs:351  `fn split(self) -> (Self::First, Self::Second)`
+    pub fn split_mut<N: ArrayLength, K: ArrayLength>(self_: Sl) -> (ret: (Sl, Sl))
+        requires
+            self_.stride == N::n(),
+            self_.len == 1,
+            self_.valid(),
+            K::n() <= N::n(),
+        ensures
+            ret.0.base == self_.base && ret.0.off == self_.off && ret.0.len == 1 && ret.0.stride == K::n(), /*OB:split_mut.post.first-half-at-the-start:C09*/
+            ret.1.base == self_.base && ret.1.off == self_.off + K::n() && ret.1.len == 1 && ret.1.stride == N::n() - K::n(), /*OB:split_mut.post.second-half-adjacent:C09*/
+            ret.0.end() == ret.1.start() && ret.1.end() == self_.end(), /*OB:split_mut.post.cover-exactly:C09*/
+    {
+        {
+            let ptr_to_first = self_.as_ptr().cast(1);
+            let head = deref(ptr_to_first.cast(K::usize_()));
+            let tail = deref(ptr_to_first.add(K::usize_()).cast(N::usize_() - K::usize_()));
+            (head, tail)
+        }
+    }
+    proof fn reach_split_mut<N: ArrayLength, K: ArrayLength>(self_: Sl) requires self_.stride == N::n(), self_.len == 1, self_.valid(), K::n() <= N::n(), { assert(false); } /*OB:canary.split_mut:*/
 
 proof fn canary() { assert(false); } /*OB:canary:*/
 } // verus!
